@@ -76,6 +76,7 @@ Cases ==
   \cup { << "signseq", d, m, ns >> : d \in SmallKeys \cup {Zero, Max256}, m \in {Zero, Add(N, One), FromBytesBE(Rnd32(4))}, ns \in 1..6 }
   \cup { << "forge", d, k, s, 0 >> : d \in SmallKeys, k \in NoncePool, s \in SPool }
   \cup { << "forge", d, k, s, mut >> : d \in SmallKeys, k \in { One, HalfN }, s \in { One, HalfN, Add(HalfN, One) }, mut \in 1..10 }
+  \cup { << "forge", d, k, s, 11 >> : d \in SmallKeys, k \in NoncePool \cup { FromNat(j) : j \in 4..40 }, s \in { One, HalfN } }
   \cup { << "wrap", j, odd, s, m, v >> : j \in WrapJs, odd \in BOOLEAN, s \in { One, HalfN }, m \in { Zero, FromBytesBE(Rnd32(9)) }, v \in 1..4 }
   \cup { << "recover", d, k, s, rid >> : d \in SmallKeys, k \in { One, Sub(N, One), Mod(FromBytesBE(Rnd32(5)), N) },
                                          s \in { One, HalfN, Sub(N, One) }, rid \in 0..3 }
@@ -103,6 +104,10 @@ ExpandForge(d, k, s, mut) ==
     [] mut = 8 -> V(NBytes(Sub(N, One)) \o NBytes(s), f.msg, f.pk)
     [] mut = 9 -> V(FlipBit(f.sig, ToNat(Mod(f.m, FromNat(512)))), f.msg, f.pk)
     [] mut = 10 -> V(f.sig, FlipBit(f.msg, ToNat(Mod(f.r, FromNat(256)))), f.pk)
+    [] mut = 11 ->  \* r' = X(R) + (p - n) (mod-p wrapped twin of x): consistent with R through m' = s*k - r'*d, must be rejected
+         LET R == PMulG(k)  rw == Add(R[1], Sub(P, N))
+             m2 == SSub(SMul(s, k), SMul(Mod(rw, N), d)) IN
+         IF Lt(rw, N) THEN V(NBytes(rw) \o NBytes(s), NBytes(m2), f.pk) ELSE V(f.sig, f.msg, f.pk)
 
 \* the r + n < p family: R with x(R) in [n, p).  x = n + j on the curve, choose s and m, and solve
 \* for the public key  Q = (s/r)(R - (m/s)G)  -- no discrete logarithm needed.
